@@ -67,15 +67,7 @@ UrlUnquoteText(t, plus) == Utf8Dec(UrlUnquoteBytes(t, plus))
 
 ----------------------------------------------------------------------------
 (* query strings: urllib.parse.parse_qs semantics as used by parse_qs_bytes *)
-QsDecode(s) == PctDecode(PlusToSpace(s))
-QsPairs(b, keep) ==
-    LET stp(acc, seg) ==
-          IF seg = <<>> THEN acc
-          ELSE LET p == Partition(seg, 61) IN
-               IF ~p[3] THEN (IF keep THEN Append(acc, <<QsDecode(seg), <<>>>>) ELSE acc)
-               ELSE IF Len(p[2]) > 0 \/ keep THEN Append(acc, <<QsDecode(p[1]), QsDecode(p[2])>>)
-               ELSE acc
-    IN FoldLeft(stp, <<>>, Split(b, 38))
+(* QsDecode / QsPairs are defined in TextBase *)
 (* dict of lists in first-occurrence order *)
 Group(pairs) ==
     LET stp(acc, p) ==
